@@ -15,6 +15,7 @@ import GoNeat.Driver.History
 import GoNeat.Driver.ModNet
 import GoNeat.Driver.Sort
 import GoNeat.Driver.FastHand
+import GoNeat.Driver.GenStats
 
 namespace GoNeat.Driver
 def allOps : List (String × Handler) :=
@@ -34,4 +35,5 @@ def allOps : List (String × Handler) :=
   ++ modNetOps
   ++ sortOps
   ++ fastHandOps
+  ++ genStatsOps
 end GoNeat.Driver
